@@ -210,6 +210,77 @@ pub struct Program<'p> {
     identity_func: GcView<FuncData<'p>>,
     ext_vars: FHashMap<InternedStr<'p>, GcView<ThunkData<'p>>>,
     native_funcs: FHashMap<InternedStr<'p>, GcView<FuncData<'p>>>,
+    #[cfg(feature = "verif-hooks")]
+    verif: VerifState,
+}
+
+/// Verification hook: when the collector runs during evaluation.
+#[cfg(feature = "verif-hooks")]
+#[derive(Copy, Clone, Debug, PartialEq, Eq)]
+pub enum VerifGcMode {
+    /// The default heuristic.
+    Default,
+    /// Never collect automatically.
+    Never,
+    /// Collect after every `n` evaluator steps.
+    Every(u64),
+    /// Collect at pseudo-random evaluator steps (about one in `period`),
+    /// determined by `seed`.
+    Schedule { seed: u64, period: u64 },
+}
+
+#[cfg(feature = "verif-hooks")]
+struct VerifState {
+    gc_mode: VerifGcMode,
+    rng: u64,
+    steps: u64,
+    collections: u64,
+}
+
+#[cfg(feature = "verif-hooks")]
+impl<'p> Program<'p> {
+    pub fn verif_set_gc_mode(&mut self, mode: VerifGcMode) {
+        self.verif.gc_mode = mode;
+        self.verif.steps = 0;
+        if let VerifGcMode::Schedule { seed, .. } = mode {
+            self.verif.rng = seed | 1;
+        }
+    }
+
+    /// Number of objects currently tracked by the collector.
+    pub fn verif_num_objects(&self) -> usize {
+        self.gc_ctx.num_objects()
+    }
+
+    /// Number of collections performed so far.
+    pub fn verif_num_collections(&self) -> u64 {
+        self.verif.collections
+    }
+
+    /// Number of `maybe_gc` calls (evaluator steps) seen since the mode was
+    /// set.
+    pub fn verif_num_steps(&self) -> u64 {
+        self.verif.steps
+    }
+
+    /// Returns `Some(collect)` when the mode overrides the default heuristic.
+    fn verif_gc_decision(&mut self) -> Option<bool> {
+        self.verif.steps += 1;
+        match self.verif.gc_mode {
+            VerifGcMode::Default => None,
+            VerifGcMode::Never => Some(false),
+            VerifGcMode::Every(n) => Some(self.verif.steps % n.max(1) == 0),
+            VerifGcMode::Schedule { period, .. } => {
+                // xorshift64
+                let mut x = self.verif.rng;
+                x ^= x << 13;
+                x ^= x >> 7;
+                x ^= x << 17;
+                self.verif.rng = x;
+                Some(x % period.max(1) == 0)
+            }
+        }
+    }
 }
 
 struct Exprs<'p> {
@@ -261,6 +332,13 @@ impl<'p> Program<'p> {
             identity_func,
             ext_vars: FHashMap::default(),
             native_funcs: FHashMap::default(),
+            #[cfg(feature = "verif-hooks")]
+            verif: VerifState {
+                gc_mode: VerifGcMode::Default,
+                rng: 1,
+                steps: 0,
+                collections: 0,
+            },
         };
         this.load_stdlib(stdlib_span_ctx);
         this
@@ -288,12 +366,23 @@ impl<'p> Program<'p> {
 
     /// Runs garbage collection unconditionally.
     pub fn gc(&mut self) {
+        #[cfg(feature = "verif-hooks")]
+        {
+            self.verif.collections += 1;
+        }
         self.gc_ctx.gc();
         self.objs_after_last_gc = self.gc_ctx.num_objects();
     }
 
     /// Runs garbage collection under certain conditions.
     pub fn maybe_gc(&mut self) {
+        #[cfg(feature = "verif-hooks")]
+        if let Some(collect) = self.verif_gc_decision() {
+            if collect {
+                self.gc();
+            }
+            return;
+        }
         let num_objects = self.gc_ctx.num_objects();
         if num_objects > 1000 && (num_objects / 2) > self.objs_after_last_gc {
             self.gc();
